@@ -15,6 +15,13 @@ import (
 
 func init() {
 	vcScenarios["C07"] = vcScenC07
+	vcScenarios["C07X"] = func(t *vcTrial) {
+		if msg, st := vcRunCloseRace(t, 400); msg != "" {
+			t.Violate("C07", "panic", "%s", msg)
+			t.P("panic_stack", st)
+		}
+		t.Nontrivial, t.Sig = true, "closerace"
+	}
 	vcDirected["C07"] = []vcScenario{
 		// D5: timeouts on a NewFDConnection (no remote address)
 		func(t *vcTrial) { vcRunC07(t, vc07Cfg{Kind: "fdconn", Reads: 3, Force: "timeout", TimeoutKind: "timeout"}) },
@@ -210,11 +217,19 @@ func vcRunC07(t *vcTrial, cfg vc07Cfg) {
 		sentPos += uint64(n)
 		peer.w.Write(p)
 	}
+	var parkAct atomic.Value // func()
 	switch cfg.Mode {
 	case vcModeJitter:
 		t.Plan = &vcPlan{Mode: vcModeJitter, Seed: r.next(), JitterPM: r.rng(50, 400), MaxSleep: time.Duration(r.rng(1, 300)) * time.Microsecond}
 	case vcModePause:
 		t.Plan = &vcPlan{Mode: vcModePause, P: cfg.P, Q: cfg.Q, ObjP: vcConnID(conn), ArgQ: -1, Timeout: time.Duration(r.rng(1, 8)) * time.Millisecond}
+		// the peer's action of the read in progress (deliver the bytes, close, ...) is performed
+		// exactly while the reader is parked at P, if the reader gets there
+		t.Plan.OnPark = func() {
+			if f, _ := parkAct.Load().(func()); f != nil {
+				f()
+			}
+		}
 	}
 	vcSetPlan(t.Plan)
 	defer vcSetPlan(nil)
@@ -277,6 +292,20 @@ func vcRunC07(t *vcTrial, cfg vc07Cfg) {
 		if op == "Read" {
 			need = 1
 		}
+		// a stale wake-up token: bytes delivered while nobody waits leave a nil in the read trigger
+		// (capacity 1); a close that lands just before the reader's receive finds the channel full
+		if class != "buffered" && r.chance(50) {
+			k := r.rng(1, 8)
+			before := inner.inputBuffer.Len()
+			send(k)
+			for dl := time.Now().Add(time.Second); inner.inputBuffer.Len() < before+k && time.Now().Before(dl); {
+				time.Sleep(20 * time.Microsecond)
+			}
+			if op != "Read" && op != "ReadByte" && need <= inner.inputBuffer.Len() {
+				need = inner.inputBuffer.Len() + 1
+				n = need
+			}
+		}
 		// ---- start the read
 		resCh := make(chan vc07Res, 1)
 		lenAt := inner.inputBuffer.Len()
@@ -338,52 +367,65 @@ func vcRunC07(t *vcTrial, cfg vc07Cfg) {
 			res.elapsed = res.retAt.Sub(callStart)
 		}()
 		<-started
-		// ---- drive the peer
-		missing := need - lenAt
-		satisfied := time.Time{} // when the wake-up condition became true (as far as the harness knows)
-		switch class {
-		case "data", "buffered":
-			if missing > 0 {
-				// deliver in chunks; the last byte arrives at a random offset, possibly near the deadline
-				if tk != "none" && d <= 25*time.Millisecond && r.chance(50) {
-					time.Sleep(time.Duration(r.intn(int(d/time.Microsecond)+1)) * time.Microsecond)
-					nearSimul++
-				} else {
-					time.Sleep(time.Duration(r.intn(400)) * time.Microsecond)
-				}
-				left := missing + r.rng(0, 30)
-				for left > 0 {
-					k := r.rng(1, left)
-					send(k)
-					left -= k
-					if r.chance(30) {
-						time.Sleep(time.Duration(r.intn(200)) * time.Microsecond)
+		// ---- drive the peer (once: either by the plan's OnPark while the reader is parked at P,
+		// or by this goroutine)
+		r2 := vfNewRng(r.next())
+		var actOnce sync.Once
+		doAct := func() {
+			actOnce.Do(func() {
+				r := r2
+				missing := need - lenAt
+				switch class {
+				case "data", "buffered":
+					if missing > 0 {
+						// deliver in chunks; the last byte arrives at a random offset, possibly near the deadline
+						if tk != "none" && d <= 25*time.Millisecond && r.chance(50) {
+							time.Sleep(time.Duration(r.intn(int(d/time.Microsecond)+1)) * time.Microsecond)
+							nearSimul++
+						} else {
+							time.Sleep(time.Duration(r.intn(400)) * time.Microsecond)
+						}
+						left := missing + r.rng(0, 30)
+						for left > 0 {
+							k := r.rng(1, left)
+							send(k)
+							left -= k
+							if r.chance(30) {
+								time.Sleep(time.Duration(r.intn(200)) * time.Microsecond)
+							}
+						}
 					}
+				case "timeout":
+					if missing > 1 && r.chance(70) {
+						send(r.rng(1, missing-1)) // some, but not enough
+					}
+				case "peerclose":
+					if missing > 1 && r.chance(50) {
+						send(r.rng(1, missing-1))
+					}
+					time.Sleep(time.Duration(r.intn(500)) * time.Microsecond)
+					if r.chance(30) {
+						peer.rst()
+					} else {
+						peer.close()
+					}
+					peerClosed = true
+				case "localclose":
+					time.Sleep(time.Duration(r.intn(500)) * time.Microsecond)
+					go conn.Close()
+					localClosed = true
 				}
-			}
-			satisfied = time.Now()
-		case "timeout":
-			if missing > 1 && r.chance(70) {
-				send(r.rng(1, missing-1)) // some, but not enough
-			}
-		case "peerclose":
-			if missing > 1 && r.chance(50) {
-				send(r.rng(1, missing-1))
-			}
-			time.Sleep(time.Duration(r.intn(500)) * time.Microsecond)
-			if r.chance(30) {
-				peer.rst()
-			} else {
-				peer.close()
-			}
-			peerClosed = true
-			satisfied = time.Now()
-		case "localclose":
-			time.Sleep(time.Duration(r.intn(500)) * time.Microsecond)
-			go conn.Close()
-			localClosed = true
-			satisfied = time.Now()
+
+			})
 		}
+		parkAct.Store(doAct)
+		if cfg.Mode == vcModePause && !t.Plan.Parked() {
+			// give the reader a moment to reach P; if it does, OnPark performs the action
+			for dl := time.Now().Add(3 * time.Millisecond); !t.Plan.Parked() && time.Now().Before(dl); {
+				time.Sleep(20 * time.Microsecond)
+			}
+		}
+		doAct()
 		// ---- collect with bounded progress
 		var res vc07Res
 		waitMax := 6 * time.Second
@@ -419,7 +461,6 @@ func vcRunC07(t *vcTrial, cfg vc07Cfg) {
 				return
 			}
 		}
-		_ = satisfied
 		// ---- judge
 		posBefore := readPos
 		desc := fmt.Sprintf("read #%d %s(%d) class=%s timeout=%s/%v lenAtCall=%d", i, op, n, class, tk, d, res.lenAt)
